@@ -76,6 +76,8 @@ type SpecFunc struct {
 	PTypes   []string
 	Body     Expr
 	Src      string
+	Uninterp bool
+	RetType  string
 }
 
 type GhostField struct {
@@ -177,6 +179,16 @@ func parseContractFile(path, pkgPath string, cs *Contracts) error {
 				return fmt.Errorf("%s:%d: %v", path, rl.line, err)
 			}
 			cs.Specs[sf.Name] = sf
+			cur, curLemma = nil, nil
+		case "uninterp":
+			// uninterp name(a int, b string) string : an uninterpreted spec function
+			r := strings.TrimSpace(rest)
+			j := strings.LastIndex(r, ")")
+			name, params, ptypes, err := parseSig(r[:j+1])
+			if err != nil {
+				return fmt.Errorf("%s:%d: %v", path, rl.line, err)
+			}
+			cs.Specs[name] = &SpecFunc{Name: name, Params: params, PTypes: ptypes, Uninterp: true, RetType: strings.TrimSpace(r[j+1:])}
 			cur, curLemma = nil, nil
 		case "lemma":
 			// lemma name(x int, y int)
